@@ -97,6 +97,12 @@ func VerifC19Injective() {
 	var a, b []byte
 	if n := verifParamInt("len", 0); n > 0 { // both names of exactly n bytes
 		a, b = verifBytes("a", n), verifBytes("b", n)
+		if p := verifParam("fixed"); p != "" { // one concrete name against every other name of n bytes
+			a = []byte(p)
+		}
+		for _, c := range b {
+			verifAssume(verifAnd(c > 0x20, c < 0x7f))
+		}
 	} else {
 		a = verifBytes("a", 1+verifChoice("alen", 3))
 		b = verifBytes("b", 1+verifChoice("blen", 3))
